@@ -223,7 +223,7 @@ func (x *Exec) globalPtr(g *ssa.Global) Val {
 	elem := g.Type().(*types.Pointer).Elem()
 	name := "G_" + san(g.Pkg.Pkg.Name()+"."+g.Name())
 	x.c.regions[name] = x.c.sortOf(elem)
-	return Val{T: g.Type(), P: &Ptr{Kind: pCell, Cell: name, BaseT: elem}}
+	return Val{T: g.Type(), P: &Ptr{Kind: pCell, Cell: name, BaseT: elem, G: g}}
 }
 
 // ---------------------------------------------------------------------
@@ -437,6 +437,15 @@ func (x *Exec) enterLoop(li *loopInfo, edges []edgeState) *State {
 			x.oblige(entry, "inv-init", pos, goal, x.clauseTag(inv, fmt.Sprintf("loop%d.inv%d", li.ord, i+1)), x.clauseProps(inv))
 		}
 	}
+	// implicit invariants: the type invariants of the function's parameters
+	for i, inv := range x.implicitLoopInvs() {
+		env := x.loopEnv(li, entry)
+		x.oblige(entry, "inv-init", pos, x.evalClause(env, inv), fmt.Sprintf("loop%d.typeinv%d", li.ord, i+1), nil)
+	}
+	// implicit invariant of range-over-slice loops: the hidden index is >= -1
+	if inv := x.rangeInv(li, entry); inv != "" {
+		x.oblige(entry, "inv-init", pos, inv, fmt.Sprintf("loop%d.rangeindex", li.ord), nil)
+	}
 	st := entry.clone()
 	lm := x.loopModSet(li)
 	// havoc
@@ -472,7 +481,13 @@ func (x *Exec) enterLoop(li *loopInfo, edges []edgeState) *State {
 			x.c.havocRegion(st, r)
 		}
 	}
-	// re-assume well-formedness of untouched cells is unnecessary (unchanged)
+	if inv := x.rangeInv(li, st); inv != "" {
+		x.assumeG(st, inv)
+	}
+	for _, inv := range x.implicitLoopInvs() {
+		env := x.loopEnv(li, st)
+		x.assumeG(st, x.evalClause(env, inv))
+	}
 	if lc != nil {
 		for _, inv := range lc.Invariants {
 			env := x.loopEnv(li, st)
@@ -507,12 +522,66 @@ func (x *Exec) loopPos(li *loopInfo) token.Pos {
 	return token.NoPos
 }
 
+// implicitLoopInvs: the type invariants of parameters hold at every loop head.
+func (x *Exec) implicitLoopInvs() []*Clause {
+	if x.fc == nil || x.fc.NoLoopInv {
+		return nil
+	}
+	return x.fc.LoopTypeInvs
+}
+
+// rangeInv: -1 <= rangeindex < len(ranged slice) for range-over-slice loops.
+func (x *Exec) rangeInv(li *loopInfo, st *State) string {
+	ri := rangeIndexAlloc(li)
+	if ri == nil {
+		return ""
+	}
+	cur, ok := st.cells[x.cellKey(ri)]
+	if !ok || cur.S == "" {
+		return ""
+	}
+	intT := types.Typ[types.Int]
+	c := x.c
+	inv := c.compare(token.GEQ, intT, cur.S, c.intConst(intT, newBig(-1)))
+	for _, in := range li.header.Instrs {
+		if b, ok := in.(*ssa.BinOp); ok && b.Op == token.LSS {
+			if k, isConst := b.Y.(*ssa.Const); isConst {
+				inv = and(inv, c.compare(token.LSS, intT, cur.S, x.constant(k).S))
+			} else if lv, ok := x.vals[b.Y]; ok && lv.S != "" {
+				inv = and(inv, c.compare(token.LSS, intT, cur.S, lv.S))
+			}
+		}
+	}
+	return inv
+}
+
+func rangeIndexAlloc(li *loopInfo) *ssa.Alloc {
+	if li.header.Comment != "rangeindex.loop" {
+		return nil
+	}
+	for _, in := range li.header.Instrs {
+		if u, ok := in.(*ssa.UnOp); ok && u.Op == token.MUL {
+			if a, ok := u.X.(*ssa.Alloc); ok && a.Comment == "rangeindex" {
+				return a
+			}
+		}
+	}
+	return nil
+}
+
 func (x *Exec) backEdge(li *loopInfo, st *State) {
 	lc := x.loopContract(li)
+	pos := x.loopPos(li)
+	if inv := x.rangeInv(li, st); inv != "" {
+		x.oblige(st, "inv-pres", pos, inv, fmt.Sprintf("loop%d.rangeindex", li.ord), nil)
+	}
+	for i, inv := range x.implicitLoopInvs() {
+		env := x.loopEnv(li, st)
+		x.oblige(st, "inv-pres", pos, x.evalClause(env, inv), fmt.Sprintf("loop%d.typeinv%d", li.ord, i+1), nil)
+	}
 	if lc == nil {
 		return
 	}
-	pos := x.loopPos(li)
 	for i, inv := range lc.Invariants {
 		env := x.loopEnv(li, st)
 		goal := x.evalClause(env, inv)
@@ -762,6 +831,11 @@ func (x *Exec) load(st *State, addr Val, pos token.Pos) Val {
 	et := pt.Elem()
 	if addr.P != nil {
 		if addr.P.Kind == pCell && len(addr.P.Path) == 0 {
+			if g, isG := addr.P.G.(*ssa.Global); isG {
+				if cv, ok := x.constGlobalVal(g); ok {
+					return cv
+				}
+			}
 			v, ok := st.cells[addr.P.Cell]
 			if !ok {
 				if isRegionKey(addr.P.Cell) { // global
@@ -772,7 +846,7 @@ func (x *Exec) load(st *State, addr Val, pos token.Pos) Val {
 				panic(unsupported("load of dead local " + addr.P.Cell))
 			}
 			if v.Undef {
-				panic(unsupported("load of executor-level value that differs between paths: " + addr.P.Cell))
+				return Val{T: et, Undef: true}
 			}
 			v.T = et
 			return v
@@ -780,6 +854,7 @@ func (x *Exec) load(st *State, addr Val, pos token.Pos) Val {
 		s, _ := c.loadPtr(st, addr.P)
 		if addr.P.Kind != pCell {
 			c.assume(c.wfAt(et, s, c.alloc(st)))
+			x.assumeValueInv(st, et, s, addr.P.Kind == pField)
 		}
 		return Val{T: et, S: s}
 	}
@@ -796,7 +871,64 @@ func (x *Exec) load(st *State, addr Val, pos token.Pos) Val {
 	p := &Ptr{Kind: pHeap, Ref: addr.S, BaseT: et}
 	s, _ := c.loadPtr(st, p)
 	c.assume(c.wfAt(et, s, c.alloc(st)))
+	x.assumeValueInv(st, et, s, false)
 	return Val{T: et, S: s}
+}
+
+// value invariants -----------------------------------------------------
+
+func (x *Exec) valueInvFor(t types.Type) *valueInv {
+	nt, ok := t.(*types.Named)
+	if !ok || nt.Obj().Pkg() == nil {
+		return nil
+	}
+	for _, vi := range x.p.valueInvs {
+		if vi.typ == nt.Obj().Name() && vi.pkg == nt.Obj().Pkg().Name() {
+			return vi
+		}
+	}
+	return nil
+}
+
+// valueInvTerm instantiates the invariant (a ghost Go function) on a term.
+func (x *Exec) valueInvTerm(st *State, vi *valueInv, t types.Type, term string) string {
+	nt := t.(*types.Named)
+	obj := nt.Obj().Pkg().Scope().Lookup(vi.fn)
+	fo, ok := obj.(*types.Func)
+	if !ok {
+		panic(contractError{vi.line + ": valueinv names unknown function " + vi.fn})
+	}
+	fn := x.p.ssaProg.FuncValue(fo)
+	name := "vinv_" + san(vi.pkg+"."+vi.typ)
+	c := x.c
+	if !c.funDecls[name] {
+		c.funDecls[name] = true
+		c.inQuant++
+		body := func() string {
+			defer func() { c.inQuant-- }()
+			sc := &State{guard: "true", cells: map[string]Val{}}
+			v := x.inlineCall(sc, fn, nil, []Val{{T: t, S: "vinv_arg"}}, fn.Signature.Results(), true)
+			return v.S
+		}()
+		c.decls = append(c.decls, fmt.Sprintf("(define-fun %s ((vinv_arg %s)) Bool %s)", name, c.sortOf(t), body))
+	}
+	return sx(name, term)
+}
+
+func (x *Exec) assumeValueInv(st *State, t types.Type, term string, isField bool) {
+	vi := x.valueInvFor(t)
+	if vi == nil || (isField && !vi.zeroSafe) {
+		return
+	}
+	x.c.assume(x.valueInvTerm(st, vi, t, term))
+}
+
+func (x *Exec) checkValueInv(st *State, t types.Type, term string, isField bool, pos token.Pos) {
+	vi := x.valueInvFor(t)
+	if vi == nil || (isField && !vi.zeroSafe) || x.ghost {
+		return
+	}
+	x.oblige(st, "valueinv", pos, x.valueInvTerm(st, vi, t, term), "", nil)
 }
 
 func (x *Exec) store(st *State, addr Val, v Val, pos token.Pos) {
@@ -820,6 +952,9 @@ func (x *Exec) store(st *State, addr Val, v Val, pos token.Pos) {
 		if v.S == "" {
 			panic(unsupported("store of executor-level value into memory"))
 		}
+		if addr.P.Kind != pCell && len(addr.P.Path) == 0 {
+			x.checkValueInv(st, et, v.S, addr.P.Kind == pField, pos)
+		}
 		c.storePtr(st, addr.P, v.S)
 		return
 	}
@@ -836,6 +971,7 @@ func (x *Exec) store(st *State, addr Val, v Val, pos token.Pos) {
 		c.setRegion(st, r, sx("store", c.region(st, r), addr.S, v.S))
 		return
 	}
+	x.checkValueInv(st, et, v.S, false, pos)
 	c.storePtr(st, &Ptr{Kind: pHeap, Ref: addr.S, BaseT: et}, v.S)
 }
 
@@ -912,7 +1048,7 @@ func (x *Exec) equal(st *State, l, r Val, pos token.Pos) string {
 			ls = x.makeIface(l, t).S
 		}
 		// comparing two interfaces holding the same uncomparable dynamic type panics
-		if un := x.uncomparableSame(ls, rs); un != "false" {
+		if un := x.uncomparableSame(ls, rs, t); un != "false" {
 			x.oblige(st, "ifacecmp", pos, not(un), "", nil)
 		}
 		return eq(ls, rs)
@@ -955,9 +1091,13 @@ func (x *Exec) strEq(a, b string) string {
 	return eq(a, b)
 }
 
-func (x *Exec) uncomparableSame(a, b string) string {
+func (x *Exec) uncomparableSame(a, b string, static types.Type) string {
 	var cases []string
+	it, _ := static.Underlying().(*types.Interface)
 	for _, t := range x.p.ifaceTypes {
+		if it != nil && !types.Implements(t, it) {
+			continue // cannot be the dynamic type of a value of this interface type
+		}
 		if !types.Comparable(t) {
 			n := ifaceCtorName(t)
 			// skip if either side is syntactically another constructor
@@ -1196,6 +1336,9 @@ func (x *Exec) lookup(st *State, lk *ssa.Lookup) Val {
 	v := sx("select", sx("select", c.region(st, val), m.S), ks)
 	vv := c.def("mv", c.sortOf(mt.Elem()), ite(hn, v, c.zero(mt.Elem())))
 	c.assume(implies(hn, c.wfAt(mt.Elem(), v, c.alloc(st))))
+	if vi := x.valueInvFor(mt.Elem()); vi != nil {
+		c.assume(implies(hn, x.valueInvTerm(st, vi, mt.Elem(), v)))
+	}
 	if lk.CommaOk {
 		return Val{T: lk.Type(), Tup: []Val{{T: mt.Elem(), S: vv}, {T: types.Typ[types.Bool], S: hn}}}
 	}
@@ -1218,6 +1361,7 @@ func (x *Exec) mapUpdate(st *State, mu *ssa.MapUpdate) {
 		panic(unsupported("map update with executor-level value"))
 	}
 	x.oblige(st, "nilmap", mu.Pos(), not(eq(m.S, "0")), "", nil)
+	x.checkValueInv(st, mt.Elem(), vs, false, mu.Pos())
 	x.mapStore(st, mu.Map.Type(), m.S, ks, vs)
 }
 
@@ -1249,7 +1393,7 @@ func (x *Exec) mapLen(st *State, mt types.Type, m string) string {
 	return ite(eq(m, "0"), "0", l)
 }
 
-const maxAlloc = "1073741824" // 2^30 elements: the "single absurd allocation" ceiling for make
+const maxAlloc = maxObj // make() larger than any existing Go object (2^40 elements) counts as an absurd allocation
 
 func (x *Exec) makeSlice(st *State, ms *ssa.MakeSlice) Val {
 	c := x.c
@@ -1359,6 +1503,9 @@ func (x *Exec) next(st *State, n *ssa.Next) Val {
 	v := sx("select", sx("select", c.region(st, val), m.S), k)
 	vv := c.def("rv", c.sortOf(mt.Elem()), v)
 	c.assume(implies(ok, c.wfAt(mt.Elem(), vv, c.alloc(st))))
+	if vi := x.valueInvFor(mt.Elem()); vi != nil {
+		c.assume(implies(ok, x.valueInvTerm(st, vi, mt.Elem(), vv)))
+	}
 	tup := n.Type().(*types.Tuple)
 	return Val{T: n.Type(), Tup: []Val{{T: types.Typ[types.Bool], S: ok}, {T: tup.At(1).Type(), S: k}, {T: tup.At(2).Type(), S: vv}}}
 }
